@@ -50,10 +50,16 @@ def evidence(prop, tier, seed, results, violations, known_hits, undecided, bound
         for s in r.get("sources", []):
             unit_obl.append(("%s.%s.safety[%s::%s]" % (r["props"][0] if r.get("props") else prop, r["unit"], s["file"], s["fn"]), "all implicit no-panic/no-overflow conditions of the extracted body"))
             fns_under_contract.add("%s::%s%s" % (s["file"], s["fn"], (" block `%s`" % s["block"]) if s.get("block") else ""))
+        def in_src(f, s):
+            st = f.get("site")
+            return bool(st) and st.get("file") == s["file"] and s["first_line"] <= (st.get("line") or -1) <= s["last_line"]
+        untagged = [f for f in r["failures"] if (".safety." in f["tag"] or "@" in f["tag"] or ".proof." in f["tag"] or ".unlocated." in f["tag"])]
         for tag, clause in unit_obl:
             if ".safety[" in tag:
-                bad = any(((".safety." in t) or ("@" in t)) for t in failed_tags)
-                is_known = bad and all((r["unit"], t) in known_tags for t in failed_tags if (".safety." in t or "@" in t))
+                src = next(s for s in r.get("sources", []) if tag.endswith("[%s::%s]" % (s["file"], s["fn"])))
+                mine = [f for f in untagged if in_src(f, src)] + [f for f in untagged if not any(in_src(f, s2) for s2 in r.get("sources", []))]
+                bad = bool(mine)
+                is_known = bad and all((r["unit"], f["tag"]) in known_tags for f in mine)
             else:
                 bad = tag in failed_tags
                 is_known = (r["unit"], tag) in known_tags
